@@ -94,6 +94,11 @@ func (e *Env) resolveType(s string) (types.Type, string) {
 	if strings.HasPrefix(s, "smt:") {
 		return nil, strings.TrimPrefix(s, "smt:")
 	}
+	if o := types.Universe.Lookup(s); o != nil {
+		if tn, ok := o.(*types.TypeName); ok {
+			return tn.Type(), e.vc.ss().sortOf(tn.Type())
+		}
+	}
 	if P.prelude.sorts[s] {
 		return nil, s
 	}
